@@ -35,7 +35,8 @@ fn judge_at(rep: &mut Rep, kind: &str, resp: &ctap2::Response, model: &Option<V>
     let exp = expected(model, n);
     let bl = body_len(model);
     for (pk, prefill) in [("empty", 0usize), ("partial", n / 2), ("partial1", 1.min(n)), ("full", n)] {
-        let sentinel = 0xEEu8;
+        // stale buffer contents: a typical sentinel, a previous error reply, zeroes, an empty-map byte
+        let sentinel = [0xEEu8, 0x7f, 0x00, 0xa0][(n + prefill) % 4];
         let got = guard(|| serialize_n(resp, n, prefill, sentinel));
         rep.count(&format!("prefill/{}", pk), 1);
         match got {
